@@ -83,4 +83,31 @@ PROPS = {
         trusted_base=BP_TB + ["data-race freedom and goroutine leaks are runtime properties outside the model (goroutine count and -race runs are evidence only)"],
         assumptions=["downstream consumers return (possibly with an error); requests issued after Shutdown was called are outside the domain"],
     ),
+    "C14": dict(
+        runs=[
+            dict(harness="codec", name="alloc",
+                 args=lambda tier, seed, casedir, coq: ["alloc", "--n", str(q(tier, 400, 10000)), "--seed", str(seed)], coq_timeout=3000),
+            dict(harness="codec", name="memlimit",
+                 args=lambda tier, seed, casedir, coq: ["memlimit", "--n", str(q(tier, 40, 400)), "--seed", str(seed)], timeout=3000),
+        ],
+        rule="alloc: random well-bracketed op sequences (allocate / grow / shrink / free, sizes 0..limit+10, limits 0..65536) on the real LimitedAllocator, "
+             "refusal flag, reported request and in-use after every operation compared with the model; memlimit: real producer histories (1-4 trace batches) "
+             "decoded by the real consumer under 10 limits from 16 B to 70 MiB, outcome class, errors.Is recognisability, published in-use (own MeterProvider), "
+             "equality of decoded telemetry across accepting limits, monotonicity of the first refused batch in the limit",
+        trusted_base=["modelled, not verified: arrow-go (its recover turning the LimitError panic into Reader.Err, its allocation sequence being independent of the limit), "
+                      "Go errors.Is/As over %w / werror.Wrap chains"],
+        assumptions=["block sizes and limits below 2^62 (Go ints; the default limit is 70 MiB)", "after a refused batch the sub-stream is desynchronised: later batches only need not panic"],
+    ),
+    "C13": dict(
+        runs=[dict(harness="codec", name="dict",
+                   args=lambda tier, seed, casedir, coq: ["dict", "--n", str(q(tier, 240, 4000)), "--seed", str(seed)], timeout=3000, coq_timeout=3000)],
+        rule="field: random op sequences (AddTotal+SetCardinality / RevertCounters; cardinalities around 255, 65535, 2^32; limits 0,100,255,1000,65535,70000,2^32-1,2^64-1; "
+             "thresholds 0..2.5) on the real transform.DictionaryField, index cap / cumulative total / event kind after every op compared with the model; "
+             "rec: the real RecordBuilderExt on a 2-column schema (Dictionary8, Dictionary16) driven through the same retry loop as arrow_record.recordBuilder over 1-5 batch "
+             "histories with fresh/reused values and externally requested schema updates, outcome per batch (views, attempts, or budget exhausted) compared with the model; "
+             "prod: the real producer under every dictionary limit option x 3 thresholds on streams with unique span names, every dictionary column of every transmitted record inspected",
+        trusted_base=["modelled, not verified: arrow-go dictionary builders (memo table kept across records of one builder, emptied when the builder is recreated)",
+                      "the float comparison card/total < threshold is represented by an exact rational (midpoint rounding argument, DESIGN.md 6/C13)"],
+        assumptions=["counts below 2^50", "termination of the retry loop is not part of C13 (C04/C08)"],
+    ),
 }
